@@ -143,7 +143,11 @@ func (g *G) MsgStress(allowPlural bool) []Cmd {
 		pl.Else = parts(1 + g.Intn(4))
 		msg.Body = []Cmd{pl}
 	} else {
-		msg.Body = parts(1 + g.Intn(10))
+		n := 1 + g.Intn(10)
+		if g.Chance(4) {
+			n = 20 + g.Intn(15) // a long message: many placeholders, many of them colliding
+		}
+		msg.Body = parts(n)
 	}
 	for _, h := range []string{"ha", "hb", "hc"} {
 		if keys := holderKeys[h]; len(keys) > 0 {
